@@ -16,6 +16,8 @@ CORPUS = [
     "Mass. Gen. Laws ch. 1, § 2 (West 1999) (barring unjust laws)", "1 Minn. L. Rev. 1, 5 (1999)",
     "Smith v. Jones (1999) 1 Cal. 4th 1, 5 (holding x (y) z) (en banc)", "1 U.S. 1 (overruling (a) and b) (1999)",
     "", " ", "§", "Id.", "supra", "1 U.S. 1",
+    # D23: short forms whose token does not end with the page (the pin-cite prefix must then be empty)
+    "Foo, 19 CO at 12M, 15 (holding x)", "Foo, 19 CO at 12M-14 and", "See Foo, 3 F.3d at 5 (6th Cir.), 7-8.",
 ]
 JOKE = "eyecite"
 
